@@ -265,6 +265,10 @@ def c08_inputs(rng, quick):
                     v = lead * 10 ** (shift + 8) + g * 10 ** shift
                     if v < 2 ** 64:
                         vals.add(v)
+    # every leading part of the 17..20-digit path (1..1844 in front of sixteen digits)
+    for lead in range(1, 1845, 7 if quick else 1):
+        for tail in (0, 10 ** 16 - 1):
+            vals.add(lead * 10 ** 16 + tail)
     for nd in range(1, 21):
         for _ in range(20 if quick else 400):
             lo = 10 ** (nd - 1) if nd > 1 else 0
